@@ -125,6 +125,21 @@ func replayOther(res *Result, rf replayFile, text string) {
 		if cerr != nil {
 			res.violate(Violation{Property: rf.Property, Kind: v.Kind, Reason: firstLine(cerr.Error())})
 		}
+	case "content_is_syntax", "content_changes_result":
+		cc := &c04checker{res: res, base: map[string]skel{}}
+		tmpl, _ := extra["template"].(string)
+		content, _ := extra["content"].(string)
+		asName, _ := extra["as_name"].(bool)
+		if tmpl == "" {
+			fatal("replay file lacks the template")
+		}
+		cc.checkContent(content, []string{tmpl}, asName, nil)
+	case "number_value", "number_is_syntax":
+		lx := strings.TrimPrefix(text, "T | where a == ")
+		if i := strings.Index(lx, " | take"); i >= 0 {
+			lx = lx[:i]
+		}
+		checkNumber(res, lx)
 	case "valid_program_not_compiled":
 		if _, _, _, cerr := pc.totalityChecks(text); cerr != nil {
 			res.violate(Violation{Property: "C13", Kind: v.Kind, Reason: firstLine(cerr.Error())})
